@@ -15,7 +15,7 @@ LEVEL = "model_checking"
 
 # which TraceStore checks decide which property
 PROP_CHECKS = {
-    "C03": ["C03_RawRefs", "C03_RawLogs", "C03_SeekRef", "C03_SeekLog", "C03_RefView", "C03_LogView", "C03_StableResults", "C10_Readable"],
+    "C03": ["C03_RawRefs", "C03_RawLogs", "C03_SeekRef", "C03_SeekLog", "C03_RefView", "C03_LogView", "C03_StableResults", "C03_FaultyReadAnswers", "C10_Readable"],
     "C07": ["C07_RefView", "C07_LogView", "C07_CompactedTables", "C07_StackAfterCompact", "C07_SpecViewPreserved", "C17_AutoCompactRange",
             "C04_CompactResult", "C10_Readable"],
     "C09": ["C09_StaleAddMustFail", "C09_DirUnchanged", "C09_StaleCompactNoop", "C09_StaleCleanNoop", "C09_UpToDate", "C09_NextIndex", "C09_RefView", "C09_LogView",
